@@ -16,7 +16,7 @@ import ast
 import os
 
 from .loader import AnalysisError
-from .values import (K, T, Obj, ListV, IterV, TupleV, SetV, DictV, FuncRef, ClassRef,
+from .values import (K, T, Obj, ListV, IterV, Poison, TupleV, SetV, DictV, FuncRef, ClassRef,
                      ExtRef, ModRef, AbsFunc, PropertyV, StaticV,
                      ClassMethodV, RegexV, NTupleV, NTClass, same, show)
 
@@ -1596,6 +1596,10 @@ class Interp:
             out = list(it.items)
             it.items = []           # used up
             return out
+        if isinstance(it, ClassRef):
+            members, _o = it.lookup('__enum_members__')
+            if isinstance(members, ListV):
+                return list(members.items)      # definition order
         if isinstance(it, (ListV, TupleV, SetV)):
             return list(it.items)
         if isinstance(it, DictV):
@@ -1882,7 +1886,11 @@ class Interp:
 
     def ex_Name(self, e, fr):
         if e.id in fr.env and e.id not in fr.globals_decl:
-            return fr.env[e.id]
+            v = fr.env[e.id]
+            if isinstance(v, Poison):
+                raise Inexact('the definition of %s was not followed' %
+                              v.why)
+            return v
         f = fr.func
         if self.global_over and f is not None and f.module is not None:
             key = (f.module.name, e.id)
@@ -1949,6 +1957,9 @@ class Interp:
                     return v.func.bind(base)
                 if isinstance(v, StaticV):
                     return v.func
+                if isinstance(v, Poison):
+                    raise Inexact('the definition of %s was not followed' %
+                                  v.why)
                 if isinstance(v, Obj) and v.cls is not None and isinstance(
                         v.cls.lookup('__get__')[0], FuncRef):
                     return self.bind_member(v, None, base)
@@ -1978,6 +1989,8 @@ class Interp:
     def bind_member(self, v, obj, cls):
         if isinstance(v, FuncRef):
             return v.bind(obj)
+        if isinstance(v, Poison):
+            raise Inexact('the definition of %s was not followed' % v.why)
         if isinstance(v, PropertyV):
             if getattr(v, 'cached', False) and isinstance(obj, Obj) and \
                     isinstance(v.fget, FuncRef):
